@@ -215,7 +215,12 @@ ALLOW_EXTRA = {
 property_info("C08", not_decided=[
     "numerical identity of repeated runs / other hash seeds (determinism of ~25 kLoC plus numpy/scipy/CoolProp): no "
     "contract within reach; the audit only shows there is no declared carrier of state between runs",
-    "cache soundness for an input file rewritten between calls (path-keyed cache, finding F6 in DESIGN.md)"])
+    "cache soundness for an input file rewritten between calls (path-keyed cache, finding F6 in DESIGN.md)",
+    "cache-key soundness across requests: that two GeophiresInputParameters objects with different input get different "
+    "identities (`_id`, hence cache key and result-file name) is a property of the HISTORY of requests made to one client "
+    "(seed C20-4: identity computed from the override dict alone, base file ignored - needs two requests with equal "
+    "overrides and different base files on one caching client); the client contract fixes the request's identity as an "
+    "opaque integer and an empty cache, it does not relate two requests"])
 property_info("C20", not_decided=[
     "'the same case report' across entry points beyond 'the same main() is invoked with equivalent arguments' - "
     "equality of outputs is determinism (see C08)",
